@@ -70,7 +70,8 @@ def problems(draw, limits="mixed", max_step="none", weights="mixed", faults=Fals
         xs = np.where(sg > 0, box[:, 1] + draw(st.floats(0.2, 2.0)) * width, box[:, 0] - draw(st.floats(0.2, 2.0)) * width)
     elif mode == "far":
         sg = np.array([draw(st.sampled_from([-1.0, 1.0])) for _ in range(n)])
-        xs = sg * draw(st.sampled_from([10.0, 30.0, 100.0])) * np.maximum(width, 1.0)
+        far = draw(st.sampled_from([10.0, 30.0, 100.0]))
+        xs = sg * (10.0 if spec["family"] == "exp" else far) * np.maximum(width, 1.0)   # exp(...) must stay finite
     else:
         xs = None
     if mode == "near-tolerance":
@@ -82,9 +83,13 @@ def problems(draw, limits="mixed", max_step="none", weights="mixed", faults=Fals
         spec["near_tol"] = tol0
     elif xs is None:
         spec["targets"] = [draw(st.floats(-3, 3)) for _ in range(m)]
+        if spec["family"] == "exp":
+            spec["targets"] = [abs(v) + 0.05 for v in spec["targets"]]
     else:
         spec["targets"] = [float(v) for v in f(xs)]
     spec["xstar"] = None if xs is None else [float(v) for v in xs]
+    if spec["family"] == "exp":
+        spec["log_targets"] = sorted(set(draw(st.lists(st.integers(0, m - 1), max_size=m))))
     spec["tols"] = [draw(st.sampled_from([1e-9, 1e-8, 1e-6, 1e-4, 1e-2, 0.1, 0.3])) for _ in range(m)]
     if mode == "near-tolerance":
         spec["tols"] = [0.1] * m
@@ -118,7 +123,7 @@ def problems(draw, limits="mixed", max_step="none", weights="mixed", faults=Fals
 def render(spec):
     keys = ("family", "shape", "n", "m", "x0", "limits", "vweights", "tweights", "max_step", "target_mode", "targets", "tols",
             "n_steps_max", "broyden", "disabled_vary", "disabled_targets", "restore_if_fail", "fault_at", "rcond",
-            "sing_val_cutoff", "check_limits")
+            "sing_val_cutoff", "check_limits", "log_targets")
     return {k: spec.get(k) for k in keys}
 
 
